@@ -41,6 +41,15 @@ Fixpoint tag_nc (t i : bytes) : option bytes :=
   | _ :: _, [] => None
   end.
 
+(* a keyword ends where an identifier could not go on:
+   terminated(tag(k), not(peek(satisfy(is_ascii_alphanumeric || '_')))) *)
+Definition is_idc (b : N) : bool := is_alnum b || (b =? 95).
+Definition kw (k i : bytes) : option bytes :=
+  match tag k i with
+  | Some r => match r with b :: _ => if is_idc b then None else Some r | [] => Some r end
+  | None => None
+  end.
+
 Fixpoint span (p : N -> bool) (i : bytes) : bytes * bytes :=
   match i with
   | b :: r => if p b then let '(a, rest) := span p r in (b :: a, rest) else ([], i)
@@ -284,17 +293,17 @@ with p_if (fuel : nat) (i0 : bytes) {struct fuel} : pres expr :=
         end
       | PErr => PErr | PFail => PFail | PPanic => PPanic
       end in
-    match tag KW_IF i with
+    match kw KW_IF i with
     | None => ternary tt
     | Some r0 =>
       match p_op0 f r0 with
       | POk c r1 =>
-        match tag KW_THEN (skip_blank r1) with
+        match kw KW_THEN (skip_blank r1) with
         | None => ternary tt
         | Some r2 =>
           match p_op0 f r2 with
           | POk y r3 =>
-            match tag KW_ELSE (skip_blank r3) with
+            match kw KW_ELSE (skip_blank r3) with
             | None => ternary tt
             | Some r4 =>
               match p_op0 f r4 with
@@ -315,13 +324,13 @@ with p_let (fuel : nat) (i0 : bytes) {struct fuel} : pres expr :=
   | O => PFail
   | S f =>
     let i := skip_blank i0 in
-    match tag KW_LET i with
+    match kw KW_LET i with
     | None => PErr
     | Some r0 =>
       match p_assigns f r0 with
       | POk vars r1 =>
         let r2 := match ws_char 59 r1 with Some r => r | None => r1 end in
-        match tag KW_IN (skip_blank r2) with
+        match kw KW_IN (skip_blank r2) with
         | None => PErr
         | Some r3 =>
           match p_op0 f r3 with
